@@ -158,6 +158,12 @@ class Generator(TreeListener):
                     for a in ast.Symbol.ATTRIBUTES:
                         v = self.get_mx(getattr(ast_symbol, a))
                         if v is not None:
+                            if isinstance(v, list):
+                                # An array constructor with symbolic entries ({3 * p, q - p}) is a
+                                # list of MX; make it one MX expression, like any other attribute
+                                # that depends on parameters, so that it takes part in
+                                # substitutions and in the variable metadata function.
+                                v = self._symbolic_list_to_mx(v)
                             if isinstance(v, ca.DM) and all(x == (None,) for x in modelica_shape):
                                 # Scalar numeric type that behaves like an array.
                                 # Coerce to Python type to avoid interpretation
@@ -176,6 +182,26 @@ class Generator(TreeListener):
                     variable.prefixes = ast_symbol.prefixes
             variables.append(variable)
         return variables
+
+    @staticmethod
+    def _symbolic_list_to_mx(value):
+        """
+        Convert a vector or matrix given as a (nested) list into an MX expression if any of
+        its entries is symbolic. Numeric lists, and lists of more than two dimensions (which
+        MX cannot represent), are returned as is.
+        """
+
+        def depth(v):
+            return 1 + depth(v[0]) if isinstance(v, list) and len(v) > 0 else 0
+
+        def entries(v):
+            return itertools.chain.from_iterable(map(entries, v)) if isinstance(v, list) else [v]
+
+        if depth(value) > 2 or not any(isinstance(e, ca.MX) for e in entries(value)):
+            return value
+        if depth(value) == 2:
+            return ca.vertcat(*[ca.horzcat(*[ca.MX(e) for e in row]) for row in value])
+        return ca.vertcat(*[ca.MX(e) for e in value])
 
     def enterClass(self, tree):
         logger.debug("enterClass {}".format(tree.name))
